@@ -39,7 +39,7 @@ def seeded_table():
         if off.get("rc") == 1 and off.get("check") not in caught:
             caught.append(off["check"])
         hist = m.get("history", "")
-        first = "missed" if hist.startswith("MISSED") else ("widened first" if "widened before" in hist else "reported")
+        first = "missed" if hist.lower().startswith("missed") else ("widened first" if "widened before" in hist else "reported")
         rows.append(f"| {os.path.basename(d)} | {m.get('property')} | {esc(m.get('needs', ''))[:260]} | {first} | {', '.join(caught) or 'none'} |")
     return "\n".join(rows)
 
